@@ -593,11 +593,20 @@ func genC02(r *Rng, tier string) []Case {
 			ti = r2.Bytes(r2.Intn(20))
 			tag = "ti-random"
 		}
+		if i%10 == 7 { // long target information (a server may send a kilobyte of AV pairs): nothing may be sized by a guess
+			long := []int{440, 460, 468, 470, 480, 500, 700, 1000, 4096, 60000}[(i/10)%10]
+			ti, _ = mkAv([]avPair{{id: 2, val: r2.Bytes(long)}, {id: 1, val: r2.Bytes(8)}})
+			tag = "ti-long"
+		}
 		a := []string{h(pw), h(u), h(d), hx(sc), hx(ti)}
 		cs = append(cs, Case{Op: "c02.v2resp", MArgs: a, SArgs: a, Tag: "v2.response." + tag})
 		b := []string{hx(c02Chal(r2, i+1)), hx(ti)}
 		cs = append(cs, Case{Op: "c02.blob", MArgs: b, SArgs: b, Tag: "v2.blob." + tag})
-		p := []string{hx(r2.Bytes(16)), hx(sc), hx(r2.Bytes(r2.Intn(60)))}
+		pl := r2.Intn(60)
+		if i%10 == 3 {
+			pl = r2.Pick(500, 503, 504, 505, 520, 1024, 4096, 65000)
+		}
+		p := []string{hx(r2.Bytes(16)), hx(sc), hx(r2.Bytes(pl))}
 		cs = append(cs, Case{Op: "c02.proof", MArgs: p, SArgs: p, Tag: "v2.proof"})
 		// the payloads inside the AUTHENTICATE message, NTLMv2 and NTLMv1
 		fl := c08Flags(r2)
